@@ -8,6 +8,7 @@ prefix), Spec.Rev.refTargets (head/heads/base/label@...), Spec.Rev.stepsDown (ex
 from __future__ import annotations
 
 import json
+import re
 import warnings
 
 from .. import gen_graph, rev_impl
@@ -33,6 +34,11 @@ def idents_for(rng, hist):
     ids = [r["id"] for r in hist]
     labels = [l for r in hist for l in r["labels"]]
     out = set(["head", "heads", "base"])
+    # a bare negative number means "that many steps below the heads (of the labelled branch)"
+    for n in (0, 1, 2, 3, 7):
+        out.add("-%d" % n)
+        for l in labels[:2]:
+            out.add("%s@-%d" % (l, n))
     for s in ids + labels:
         for k in range(1, len(s) + 1):
             out.add(s[:k])
@@ -75,7 +81,8 @@ def impl_get(m, ident, single):
                 r = [m.get_revision(ident)]
             else:
                 r = list(m.get_revisions(ident))
-        return {"revs": [x.revision if x is not None else None for x in r]}
+        # (`_walk` hands back the string "base" when a downward walk ends exactly at base)
+        return {"revs": [x if isinstance(x, str) else (x.revision if x is not None else None) for x in r]}
     except Exception as e:  # noqa
         return {"err": rev_impl.err_name(e)}
 
@@ -163,7 +170,15 @@ def judge(ctx, cases):
         ctx.nontrivial((json.dumps(base["revs"], sort_keys=True), ident, tuple(c.get("rows", [])), c.get("single"), c.get("up")))
         if len(ctx.samples) < 5 and kind == "parse":
             ctx.sample({"history": base["revs"], "identifier": ident, "rows": c.get("rows"), "impl": impl})
-        if kind == "resolve":
+        if kind == "resolve" and re.match(r"^(?:.+@)?-\d+$", ident):
+            # a bare negative number: N steps below the heads
+            n = int(ident.rsplit("-", 1)[1])
+            if n > 0:
+                rs = [r for r in impl["revs"] if r is not None]
+                op = {"op": "rev.spec.belowheads", **h, "n": n, "results": rs}
+                spec_ops.append(op)
+                spec_meta.append(("belowheads", inp, impl, n))
+        elif kind == "resolve":
             if "@" not in ident and ident not in ("head", "heads", "base"):
                 for r in impl["revs"]:
                     if r is not None:
@@ -179,8 +194,6 @@ def judge(ctx, cases):
             spec_meta.append(("ref", inp, impl, None))
         else:
             # relative forms with an explicit symbol: exact distance along down_revision links
-            import re
-
             mm = re.match(r"^(?:(.+?)@)?(\w+)?([+-]\d+)", ident)
             if mm and mm.group(2) and "targets" in impl and len(impl["targets"]) == 1:
                 n = int(mm.group(3))
@@ -235,6 +248,9 @@ def judge(ctx, cases):
         elif kind == "inbranch":
             if a.get("holds") is False:
                 ctx.fail(inp, "outside-branch: %r resolves to %s which is not on the named branch" % (inp["target"], extra), impl=impl, tags=["branch"])
+        elif kind == "belowheads":
+            if a.get("holds") is not True:
+                ctx.fail(inp, "distance: %r resolves to %s, not all of them exactly %d down_revision links below a head" % (inp["ident"], impl["revs"], extra), impl=impl, tags=["distance", "belowheads"])
         elif kind == "relup":
             if a.get("holds") is False:
                 ctx.fail(inp, "relative-start: %r from rows %s resolves to %s, which is not exactly %d down_revision links above the one applied tip it must count from" % (inp["target"], inp["rows"], impl["targets"], extra), impl=impl, tags=["distance", "relup"])
